@@ -130,7 +130,8 @@ func driveC11(c *h.Ctx) error {
 		"read: the same kinds instead of the reply, after 1/7/8/9/40/all-but-one bytes of it, right after it; zero-byte reads; chunked and junk-prefixed replies) x what the caller does next " +
 		"(call, call call, Close, Close call, call Close call); (2) failure chains over successive connections incl. failing dials, exhaustive to length 3, random to length 6; " +
 		"(3) every cancellation / concurrent Close instant (before the call, send.loaded hook, Write parked in the transport, roundtrip.sent hook, reply held back, inside the dialer) " +
-		"alone and combined with failures; (4) random compositions. Non-trivial: at least one failure, trigger, Close or negotiation; distinct by scenario text")
+		"alone and combined with failures; (4) races: the next call started without waiting, at the instant the server closes the connection after replying, " +
+		"after an abandoned or failed call; (5) random compositions. Non-trivial: at least one failure, trigger, Close or negotiation; distinct by scenario text")
 	cases, replay, err := ccReplayCases(c)
 	if err != nil {
 		return err
@@ -139,6 +140,7 @@ func driveC11(c *h.Ctx) error {
 		cases = append(cases, ccGenSingle()...)
 		cases = append(cases, ccGenChains(c.Rng.Fork(11), c.Pick(150, 1500))...)
 		cases = append(cases, ccGenTriggers()...)
+		cases = append(cases, ccGenRaces()...)
 		cases = append(cases, ccGenRandom(c.Rng.Fork(12), c.Pick(400, 8000))...)
 	}
 	b, _ := json.Marshal(len(cases))
